@@ -106,7 +106,7 @@ def single(ctx, prop, orc, case):
         if key_ not in _CACHE_DONE:
             _CACHE_DONE.add(key_)
             cache_invalidation(ctx, 'C03.S1', ctx.cls('Position'), caches, 'a kept P&L figure (%s) is dropped whenever the state it was computed from changes' % prop)
-        cache_locs = {loc for loc, _, _ in caches}
+        cache_locs = {c_[0] for c_ in caches}
         ps = misses
         for p in ps:
             if any(e.kind == 'write' and not e.d.get('local') and e.loc not in cache_locs for e in p.flat_events()):
@@ -186,7 +186,7 @@ def s1_reads(ctx):
         # a figure kept once computed: what matters is what the COMPUTING paths read (the kept slot itself is covered by the invalidation clause of S1)
         from ..lib import split_cache_paths
         ps, hits_, caches_ = split_cache_paths(ctx, ctx.fn('Position.' + prop), ps)
-        cache_roots = {root for _, root, _ in caches_} if hits_ else set()
+        cache_roots = {c_[1] for c_ in caches_} if hits_ else set()
         used = set()
         for p in ps:
             ts = [p.value] if p.value is not None else []
